@@ -116,6 +116,12 @@ var CfgC04 = reg(&MachineCfg{
 
 var CfgC05 = reg(&MachineCfg{
 	Prop: "C05",
+	Setup: func(g *G, opt *world.Options) {
+		// a registry that already holds entries and tombstones, often more than any batch size
+		if g.chance("did-genesis-mode", 22) {
+			opt.DidGenesis = g.genDidGenesis(app.MakeEncodingConfig().Codec, world.DIDKeys(), true)
+		}
+	},
 	Gens: []interface{}{"did", 66, "commit", 14, "crash", 4, "restart", 4, "export", 6, "bank", 2, "sim_did", 4},
 	Bias: map[string]int{"right-signers": 94, "exec": 2, "right-proof": 75, "did-deactivate": 25, "aim-tomb": 45, "did-replay": 8, "update-to-empty": 14, "did-mismatch": 12},
 	Rule: "DID machine weighted to deactivation followed by long suffixes of create/update/deactivate on the tombstone with former and fresh keys, restarts, crashes and export/import; oracle = tombstone permanence (read says not found, entry byte-identical, every later message refused) and create-on-existing refused; non-trivial = a deactivation followed by >=3 attempts on the tombstone incl. one with a harness-made proof and a restart/export afterwards",
